@@ -309,7 +309,20 @@ struct Ctl11 {
     int fi = (int)(((op.arg(0) % 9) + 9) % 9), max_bytes = (int)std::max<int64_t>(3, op.arg(1, 1500)), fmt = (int)(((op.arg(2) % 3) + 3) % 3);
     int frame = (int)((int64_t)kFrames48[fi] * L.fs / 48000);
     int sel = frame;
-    if (m_expert != 5000) { sel = m_expert <= 5005 ? (L.fs / 400) << (m_expert - 5001) : (m_expert - 5001 - 2) * L.fs / 50; if (sel > frame) return; }
+    if (m_expert != 5000) {
+      sel = m_expert <= 5005 ? (L.fs / 400) << (m_expert - 5001) : (m_expert - 5001 - 2) * L.fs / 50;
+      if (sel > frame) {
+        // the requested duration binds: fewer samples than it needs must be refused, never coded as a shorter packet
+        std::vector<float> pcm0((size_t)frame * L.ch); Bytes pk0; std::vector<opus_int32> b0 = snapshot();
+        int r0 = enc.encode(pcm0.data(), frame, max_bytes, fmt, pk0);
+        run.ev((uint64_t)r0); run.count("short_frame_for_expert_duration");
+        if (r0 > 0) REPORT(run, prop, "expert_duration_not_honoured", "duration request %d needs %d samples, %d supplied: encoded a packet of %d bytes instead of refusing", m_expert, sel, frame, r0);
+        if (r0 != OPUS_BAD_ARG) REPORT(run, prop, "short_frame_undocumented_error", "returned %d", r0);
+        expect_unchanged(b0, "refused encode", m_expert, frame);
+        run.fired = true;
+        return;
+      }
+    }
     std::vector<float> pcm((size_t)frame * L.ch);
     src_fill(src, L.fs, L.ch, pos, frame, pcm.data());
     std::vector<opus_int32> before_enc = snapshot();
